@@ -209,6 +209,155 @@ pub fn arb_hostile_liquidity_plan(p: &Profile) -> impl proptest::strategy::Strat
         })
 }
 
+/// Wide transactions: one transaction consolidating 250-300 existing coins, most of them under one covenant, with one
+/// or two coins under other covenants placed around position 255/256 (where the covenant environment's 8-bit
+/// spender index ends). Built through two funding transactions of up to 255 outputs; applied, sealed, and the block
+/// offered back to its parent. Only totality is judged here.
+#[derive(Clone, Debug, serde::Serialize, serde::Deserialize)]
+pub struct WideCase {
+    pub n_plain: u16,
+    pub odd: Vec<(u16, u8)>,
+    pub sig_slot_wrap: bool,
+    pub net: u8,
+}
+
+pub fn arb_wide() -> impl proptest::strategy::Strategy<Value = WideCase> {
+    use proptest::prelude::*;
+    (
+        prop_oneof![Just(253u16), Just(254), Just(255), Just(256), Just(257), 250u16..300],
+        proptest::collection::vec((prop_oneof![Just(0u16), Just(254), Just(255), Just(256), Just(257), Just(299), 0u16..300], any::<u8>()), 1..3),
+        any::<bool>(),
+        any::<u8>(),
+    )
+        .prop_map(|(n_plain, odd, sig_slot_wrap, net)| WideCase { n_plain, odd, sig_slot_wrap, net })
+}
+
+pub fn check_wide(c: &WideCase, st: &mut Stats, shard: usize) -> Check {
+    use crate::world::{CovSpec, GenesisSpec};
+    use melstructs::{CoinData, CoinID, CoinValue, Denom, NetID, Transaction, TxKind};
+    st.eval();
+    let t = CovSpec::True;
+    let out = |cov: &CovSpec, v: u128| CoinData { covhash: cov.hash(), value: CoinValue(v), denom: Denom::Mel, additional_data: Default::default() };
+    let net = [NetID::Custom02, NetID::Custom08, NetID::Testnet][c.net as usize % 3];
+    let g = GenesisSpec { net, init: out(&t, 1 << 80), init_cov: t.clone(), fee_pool: 0, fee_mult: 100, stakes: vec![] };
+    let mut w = World::new(g, shard);
+    let n_plain = (c.n_plain as usize).clamp(2, 300);
+    let unit = 1u128 << 30;
+    // funding: F1 (254 plain coins + change), F2 (the rest of the plain coins, the odd ones, change)
+    let mut f1 = Transaction::new(TxKind::Normal);
+    f1.inputs = vec![CoinID::zero_zero()];
+    f1.covenants = vec![t.bytes().into()];
+    let first = n_plain.min(254);
+    for _ in 0..first {
+        f1.outputs.push(out(&t, unit));
+    }
+    let fee = 1u128 << 40;
+    let change1 = (1u128 << 80) - unit * first as u128 - fee;
+    f1.outputs.push(out(&t, change1));
+    f1.fee = CoinValue(fee);
+    let h1 = f1.hash_nosigs();
+    let mut f2 = Transaction::new(TxKind::Normal);
+    f2.inputs = vec![CoinID::new(h1, first as u8)];
+    f2.covenants = vec![t.bytes().into()];
+    let rest = n_plain - first;
+    for _ in 0..rest {
+        f2.outputs.push(out(&t, unit));
+    }
+    let odd_specs: Vec<CovSpec> = c.odd.iter().map(|(_, sel)| match sel % 4 {
+        0 => CovSpec::SigNew((*sel / 4) as usize),
+        1 => CovSpec::SigLegacy((*sel / 4) as usize),
+        2 => CovSpec::HeightAbove(0),
+        _ => CovSpec::SigNew(((*sel / 4) as usize) + 1),
+    }).collect();
+    for sp in odd_specs.iter() {
+        f2.outputs.push(out(sp, unit));
+    }
+    let change2 = change1 - unit * (rest + odd_specs.len()) as u128 - fee;
+    f2.outputs.push(out(&t, change2));
+    f2.fee = CoinValue(fee);
+    let h2 = f2.hash_nosigs();
+    match w.apply_batch(&[f1.clone(), f2.clone()]) {
+        O::Ok(()) => {}
+        O::Rejected(_) => {
+            st.exclude("wide-funding-rejected");
+            return Ok(());
+        }
+        O::Panicked(p) => return Err(Violation::new(p.signature(), format!("funding a wide transaction panicked at {}: {}", p.location, p.message))),
+    }
+    let parent = match w.seal(None) {
+        O::Ok(s) => s,
+        O::Panicked(p) => return Err(Violation::new(p.signature(), format!("seal panicked at {}: {}", p.location, p.message))),
+        _ => return Ok(()),
+    };
+    // the wide spend
+    let mut ins: Vec<(CoinID, Option<usize>)> = vec![];
+    for i in 0..first {
+        ins.push((CoinID::new(h1, i as u8), None));
+    }
+    for i in 0..rest {
+        ins.push((CoinID::new(h2, i as u8), None));
+    }
+    for (j, (pos, _)) in c.odd.iter().enumerate() {
+        let at = (*pos as usize).min(ins.len());
+        ins.insert(at, (CoinID::new(h2, (rest + j) as u8), Some(j)));
+    }
+    ins.push((CoinID::new(h2, (rest + odd_specs.len()) as u8), None));
+    let mut tx = Transaction::new(TxKind::Normal);
+    tx.inputs = ins.iter().map(|x| x.0).collect();
+    let mut covs: Vec<Vec<u8>> = vec![t.bytes()];
+    for sp in odd_specs.iter() {
+        if !covs.contains(&sp.bytes()) {
+            covs.push(sp.bytes());
+        }
+    }
+    tx.covenants = covs.into_iter().map(|b| b.into()).collect();
+    let total = unit * (n_plain + odd_specs.len()) as u128 + change2;
+    tx.fee = CoinValue(fee);
+    tx.outputs.push(out(&t, total - fee));
+    // signatures where the standard covenants look for them: slot 0 (legacy) or the input's position (new) - the
+    // latter either literally or modulo 256
+    let mut need: Vec<(usize, usize)> = vec![];
+    for (pos, (_, j)) in ins.iter().enumerate() {
+        if let Some(j) = j {
+            match &odd_specs[*j] {
+                CovSpec::SigLegacy(k) => need.push((0, *k)),
+                CovSpec::SigNew(k) => need.push((if c.sig_slot_wrap { pos % 256 } else { pos }, *k)),
+                _ => {}
+            }
+        }
+    }
+    if let Some(m) = need.iter().map(|x| x.0).max() {
+        tx.sigs = vec![bytes::Bytes::new(); m + 1];
+        let hh = tx.hash_nosigs();
+        for (slot, k) in need.iter() {
+            tx.sigs[*slot] = crate::world::sk(*k).sign(&hh.0 .0).into();
+        }
+    }
+    let n_in = tx.inputs.len();
+    st.class(if n_in > 256 { "wide-more-than-256-inputs" } else if n_in == 256 { "wide-256-inputs" } else { "wide-up-to-255-inputs" });
+    if ins.iter().enumerate().any(|(p, x)| p >= 256 && x.1.is_some()) {
+        st.class("wide-odd-covenant-at-position-256-or-later");
+    }
+    let r = w.apply_batch(std::slice::from_ref(&tx));
+    match &r {
+        O::Ok(()) => st.class("wide-accepted"),
+        O::Rejected(_) => st.class("wide-rejected"),
+        O::Panicked(p) => return Err(Violation::new(p.signature(), format!("a transaction with {} inputs (other covenants at {:?}) panicked at {}: {}", n_in, c.odd, p.location, p.message.chars().take(200).collect::<String>()))),
+    }
+    match w.seal(None) {
+        O::Ok(s) => {
+            let blk = s.to_block();
+            if let Err(p) = crate::util::catch(|| parent.apply_block(&blk).is_ok()) {
+                return Err(Violation::new(p.signature(), format!("apply_block of a block holding a {}-input transaction panicked at {}: {}", n_in, p.location, p.message)));
+            }
+        }
+        O::Panicked(p) => return Err(Violation::new(p.signature(), format!("seal panicked at {}: {}", p.location, p.message))),
+        _ => {}
+    }
+    st.nontrivial(h64(format!("{:?}", c).as_bytes()));
+    Ok(())
+}
+
 pub fn run(ctx: &Ctx) -> (Outcome, String, Option<bool>) {
     let mut p = profile();
     if ctx.thorough() {
@@ -231,6 +380,7 @@ pub fn run(ctx: &Ctx) -> (Outcome, String, Option<bool>) {
             },
         ));
     }
+    out.absorb(crate::runner::run_sharded(ctx, "wide-transactions", ctx.scale(20, 300), arb_wide, |c, st, shard| check_wide(c, st, shard)));
     // single transactions of every shape (sizes, covenant weights up to saturation, every multiplier class)
     let o = crate::runner::run_sharded(
         ctx,
@@ -246,11 +396,15 @@ pub fn run(ctx: &Ctx) -> (Outcome, String, Option<bool>) {
         },
     );
     out.absorb(o);
-    let rule = "Generated histories in adversarial mode: ~43% of transactions mutated (off-by-one values, repeated/missing/spent inputs, dropped or garbage covenants, corrupted or foreign signatures, MAX_COINVAL+1, 256 outputs, fee-1, swapped kind, random data, duplicates, empty transactions, destroyed outputs), zero-valued and maximal pool requests, pool keys in 6 alternative spellings (~35% of requests), every proposer delta class, every fee-multiplier class, undecodable stake documents. Oracle: every call of apply_tx_batch, seal, header, next_unsealed, to_block/from_block runs under catch_unwind (engine built with overflow checks and debug assertions); any panic is a violation keyed by (panic site, message class); a watchdog turns a hang into exit 2. A phase of hostile liquidity histories by construction: faucets that also forge liquidity tokens of existing pools (amounts equal to / 60% of / just above what the pool has issued), then blocks dense in withdrawals (several per pool per block), deposits, swaps and more faucets; every sealed block is also offered back to its parent in 4 of 10 hostile variants (extreme header fields, hostile or signature-less transactions slipped in, transactions dropped, extreme proposer actions) through apply_block. Another phase applies single faucet transactions of every shape (0-255 outputs, data to 4 KiB, 0-4 covenants whose weights range from 1 to saturation through up to 10 nested 65535-iteration loops, multipliers 0..2^100) and treats any panic as a violation. Non-trivial = a case in which >=1 hostile shape reached the STF and the call returned a rejection or sealing survived; distinct by the set of hostile shapes in the case.".to_string();
+    let rule = "Generated histories in adversarial mode: ~43% of transactions mutated (off-by-one values, repeated/missing/spent inputs, dropped or garbage covenants, corrupted or foreign signatures, MAX_COINVAL+1, 256 outputs, fee-1, swapped kind, random data, duplicates, empty transactions, destroyed outputs), zero-valued and maximal pool requests, pool keys in 6 alternative spellings (~35% of requests), every proposer delta class, every fee-multiplier class, undecodable stake documents. Oracle: every call of apply_tx_batch, seal, header, next_unsealed, to_block/from_block runs under catch_unwind (engine built with overflow checks and debug assertions); any panic is a violation keyed by (panic site, message class); a watchdog turns a hang into exit 2. A phase of hostile liquidity histories by construction: faucets that also forge liquidity tokens of existing pools (amounts equal to / 60% of / just above what the pool has issued), then blocks dense in withdrawals (several per pool per block), deposits, swaps and more faucets; every sealed block is also offered back to its parent in 4 of 10 hostile variants (extreme header fields, hostile or signature-less transactions slipped in, transactions dropped, extreme proposer actions) through apply_block. A phase of wide transactions consolidates 250-300 existing coins in one transaction with coins under other covenants placed around position 255/256 (signatures in the literal slot or modulo 256), then seals and re-validates the block. Another phase applies single faucet transactions of every shape (0-255 outputs, data to 4 KiB, 0-4 covenants whose weights range from 1 to saturation through up to 10 nested 65535-iteration loops, multipliers 0..2^100) and treats any panic as a violation. Non-trivial = a case in which >=1 hostile shape reached the STF and the call returned a rejection or sealing survived; distinct by the set of hostile shapes in the case.".to_string();
     (out, rule, None)
 }
 
 pub fn replay(case: &serde_json::Value) -> Check {
+    if case.get("n_plain").is_some() {
+        let c: WideCase = serde_json::from_value(case.clone()).map_err(|e| Violation::new("replay-format", e.to_string()))?;
+        return check_wide(&c, &mut Stats::default(), 200);
+    }
     if let Ok(s) = serde_json::from_value::<super::c05::Shape>(case.clone()) {
         let mut st = Stats::default();
         return super::c05::check_shape_with(&s, &mut st, 200, true);
